@@ -47,8 +47,8 @@ def gen_case(tape, schema_knobs=None, doc_knobs=None, vars_knobs=None):
     return c
 
 
-def make_plan(case, tape, faults=None, stream="data", knobs=None, root_value=None):
-    ex = RefExec(case.schema, case.doc, tape, stream, faults, knobs)
+def make_plan(case, tape, faults=None, stream="data", knobs=None, root_value=None, base=None):
+    ex = RefExec(case.schema, case.doc, tape, stream, faults, knobs, base_over=base.over if base is not None else None)
     return ex.run(case.op_name, copy.deepcopy(case.variables), root_value)
 
 
